@@ -661,6 +661,54 @@ def ow4(ctx, R):
                     "read_data(scaled=False) never returns data taken from the (scaled) chunk cache",
                     "read_data(scaled=False) can be answered from the chunk cache of integer indexing, which holds SCALED data: the result of a raw "
                     "read then depends on which index was read before")
+    # a window served from the cached chunk: the conditions that select it must bound the END of the window by the end of the
+    # cached chunk, not only its start
+    from .sem import leaves, flat_conds, params_of, norm_items
+    from .sym import show, contains
+    V = cm["V"]
+    for m_ in sorted(K.methods.values(), key=lambda f_: f_.qual) if K is fi.cls else []:
+        if m_ is fi or m_.name == "__init__":
+            continue
+        if not any(isinstance(x, ast.Attribute) and x.attr == V[-1] for x in ast.walk(m_.node)):
+            continue
+        try:
+            val = _named_items(prog, m_.module, norm_items(Sym(prog, m_, m_.cls).function_value()))
+        except Exception:
+            continue
+        if not isinstance(val, tuple) or not val or val[0] == "opaque":
+            continue
+        for conds, leaf in leaves(val, ()):
+            base = leaf
+            while isinstance(base, tuple) and base and base[0] == "method" and base[1] in ("copy", "view", "astype"):
+                base = base[2]
+            if not (isinstance(base, tuple) and base and base[0] == "sub" and base[1] == V and isinstance(base[2], tuple) and base[2] and base[2][0] == "slice"):
+                continue
+            lo, hi = base[2][1], base[2][2]
+            key = "%s::window served from the chunk cache" % m_.qual
+            extent = set(params_of(hi)) - set(params_of(lo)) if hi != ("const", None) else set()
+            if not extent:
+                R.undecided(key, m_.where(), "upper bound `%s` of the window taken from the cached chunk not understood" % show(hi)[:80])
+                continue
+            fc = [c for c in flat_conds(conds) if isinstance(c, tuple) and len(c) == 4 and c[0] == "cmp" and c[1] in ("<", ">", "<=", ">=")]
+            state_fields = [x for x in cm["state"] if x != V[-1]]
+            def mentions_bounds(t):
+                return contains(t, lambda y: _is_field(y) and y[-1] in state_fields) or contains(t, lambda y: y == ("len", V) or (isinstance(y, tuple) and y[:2] == ("call", "len") and V in y[2]))
+            bounded = [c for c in fc if any(p_ in _flat_terms(c[2]) + _flat_terms(c[3]) for p_ in extent) and (mentions_bounds(c[2]) or mentions_bounds(c[3]))]
+            R.check(bool(bounded), key, m_.where(), "the window's end is compared with the end of the cached chunk (`%s`)" % (show(bounded[0])[:80] if bounded else ""),
+                    "`%s` is returned from the chunk cached by integer indexing under conditions (%s) that do not compare the end of the window (%s) with the end of the "
+                    "cached chunk: a window that starts inside the cached chunk and runs past it is silently cut short, so the result depends on which index was read before"
+                    % (show(leaf)[:80], "; ".join(show(c)[:50] for c in fc)[:200], ", ".join(sorted(p_[1] for p_ in extent))))
+
+
+def _flat_terms(t):
+    out = []
+    def visit(y):
+        if isinstance(y, tuple):
+            out.append(y)
+            for z in y:
+                visit(z)
+    visit(t)
+    return out
 
 
 def _is_field(t):
